@@ -34,6 +34,7 @@ from treadmill import rulefile
 class Hub:
     sched = None
     root = None
+    locks = {}
 
 
 def _rel(path):
@@ -124,8 +125,41 @@ class OsProxy:
     def rmdir(self, p, *a, **kw):
         return _do('rmdir', os.rmdir, p)
 
+    def close(self, fd):
+        for key, held in list(Hub.locks.items()):
+            if held == fd:
+                del Hub.locks[key]
+        return os.close(fd)
+
     def access(self, p, mode, *a, **kw):
         return _do('exists', lambda q: os.access(q, mode), p)
+
+
+class FcntlProxy:
+    """Stands for `fcntl` where the code under test uses advisory locks (a
+    proposed repair does): flock() becomes a *blocking* scheduling point
+    (enabled only while nobody else holds the lock on that inode); the real
+    flock() is never called, it would block the whole interpreter."""
+
+    def __getattr__(self, name):
+        import fcntl
+        return getattr(fcntl, name)
+
+    def flock(self, fd, operation):
+        import fcntl
+        sched = Hub.sched
+        if sched is None or sched.actor() is None:
+            return fcntl.flock(fd, operation)
+        key = os.fstat(fd).st_ino
+        if operation & fcntl.LOCK_UN:
+            if Hub.locks.get(key) == fd:
+                del Hub.locks[key]
+            return None
+        actor = sched.point(('flock', 'lock'),
+                            guard=lambda: key not in Hub.locks)
+        Hub.locks[key] = fd
+        actor.log.append((sched.step, 'flock', 'lock', None))
+        return None
 
 
 class GlobProxy:
@@ -145,6 +179,9 @@ def install():
     rulefile.os = PROXY
     endpoints.os = PROXY
     endpoints.glob = GlobProxy()
+    for mod in (rulefile, endpoints):
+        if hasattr(mod, 'fcntl'):
+            mod.fcntl = FcntlProxy()
 
 
 # ---------------------------------------------------------------------------
@@ -243,6 +280,7 @@ class System:
 
         Hub.sched = sched
         Hub.root = self.dir
+        Hub.locks = {}
         try:
             tr = sched.run([('p0', program(0)), ('p1', program(1))])
         finally:
@@ -446,10 +484,14 @@ def audit(system, case, tr):
     live = {k for k in OWNERS if k not in ini['dead']}
     log = merged_log(case, tr)
     out = []
+    after = {}          # step -> holder table right after that step
     for idx, (step, k, op, call_, entry, res) in enumerate(log):
+        after[step] = table
         failed = isinstance(res, str) and res.startswith('E:')
         if failed:
             continue
+        table = dict(table)
+        after[step] = table
         if call_ == 'symlink':
             table[entry] = op[2]
         elif call_ == 'rmdir':
@@ -474,22 +516,60 @@ def audit(system, case, tr):
                     break
                 if e[1] == k and e[2] is not op:
                     break
+            # what the other process did to this entry (or, for a release,
+            # to the directory of the owner it is made for) inside the window
             crossing = []
+            caller_dir = OWNERS.get(op[2]) if op[0] != 'gc' else None
             for e in log[:idx]:
-                if e[1] != k and (t_read is None or e[0] > t_read) and \
-                        e[3] in ('symlink', 'unlink', 'rmdir', 'rename') and \
-                        not (isinstance(e[5], str) and e[5].startswith('E:')):
+                if e[1] == k or (t_read is not None and e[0] <= t_read) or \
+                        (isinstance(e[5], str) and e[5].startswith('E:')):
+                    continue
+                if (e[3] in ('symlink', 'unlink', 'rename') and
+                        e[4] == entry) or \
+                        (e[3] == 'rmdir' and e[4] == caller_dir):
                     name = api_of(case, e[2])
-                    if not crossing or crossing[-1] != name:
+                    if name not in crossing:
                         crossing.append(name)
             out.append({
                 'clause': clause,
                 'api': '%s: %s->unlink window crossed by %s' % (
-                    api_of(case, op), read, '+'.join(crossing) or 'nothing'),
+                    api_of(case, op), read,
+                    '+'.join(sorted(crossing)) or 'nothing'),
                 'detail': {'entry': entry, 'holder_at_unlink': holder,
                            'holder_live': holder in live,
                            'unlinked_by': 'p%d %s' % (k, tok(op)),
                            'step': step}})
+    # never two owners: an allocate that reported success must leave the
+    # entry with the caller at the moment it returns
+    for k in (0, 1):
+        pname = 'p%d' % k
+        plog = tr.logs[pname]
+        for op, (status, lo, hi) in zip(case['progs'][k],
+                                        tr.results[pname] or []):
+            if op[0] != 'create' or status != 'ok' or hi <= lo:
+                continue
+            entry = system.names[op[1]]
+            last = plog[hi - 1][0]
+            holder = after[last].get(entry)
+            if holder != op[2]:
+                first = plog[lo][0]
+                crossing = []
+                for e in log:
+                    if e[1] != k and first < e[0] < last and e[4] == entry \
+                            and e[3] in ('symlink', 'unlink', 'rename') and \
+                            not (isinstance(e[5], str) and
+                                 e[5].startswith('E:')):
+                        name = api_of(case, e[2])
+                        if name not in crossing:
+                            crossing.append(name)
+                out.append({
+                    'clause': 'race-allocate-succeeded-but-entry-held-by-other',
+                    'api': '%s: %s->%s window crossed by %s' % (
+                        api_of(case, op), plog[lo][1], plog[hi - 1][1],
+                        '+'.join(sorted(crossing)) or 'nothing'),
+                    'detail': {'entry': entry, 'caller': op[2],
+                               'holder_when_it_returned': holder,
+                               'created_by': 'p%d %s' % (k, tok(op))}})
     return out
 
 
@@ -538,7 +618,7 @@ def shared_touch(tr):
     """Did both processes operate on one and the same entry?"""
     def touched(p):
         return {posixpath.basename(e[2]) for e in tr.logs[p]
-                if e[1] not in ('listdir', 'glob', 'rmdir')}
+                if e[1] not in ('listdir', 'glob', 'rmdir', 'flock')}
     return bool(touched('p0') & touched('p1'))
 
 
@@ -561,7 +641,7 @@ INITS = {
 }
 
 
-def op_menus(kind, wide):
+def op_menus(kind, wide, vanish=True):
     """Per-process operation menus.  Process 0 acts for owner A, process 1
     for owner B (a release of A's entry by B is the non-owner release);
     process 1 may also see owner A disappear."""
@@ -571,7 +651,7 @@ def op_menus(kind, wide):
             m += [('create', 1, me), ('unlink', 1, me)]
         if kind == 'spec':
             m.append(('unlink_all', 'proid.a#1', me))
-        if other:
+        if other and vanish:
             m.append(('vanish', other))
         return m
     return menu('A', None), menu('B', 'A')
